@@ -1,6 +1,7 @@
 import DimodModel.Cqm
 import DimodModel.Feasibility
 import DimodModel.FeasOptions
+import DimodModel.FeasMore
 import DimodModel.Wire
 open Wire
 
@@ -186,8 +187,54 @@ def showFeasL (m : Cqm) (labels : Option (List Label)) (row : List Rat) : String
       s!"{showLabel d.label}:{showRat d.lhsEnergy}:{showRat d.rhsEnergy}:{showSense d.sense}:{showRat d.activity}:{showRat d.violation}")
   s!"L {data}|{sh (Feas.iterViolationsL false false labels cs 0)}|{sh (Feas.iterViolationsL true false labels cs 0)}|{sh (Feas.iterViolationsL false true labels cs 0)}|{sh (Feas.iterViolationsL true true labels cs 0)}"
 
+/-- `exact <atol> <rtol>`: `ExactCQMSolver().sample_cqm(cqm, rtol, atol)` on the current model — column labels (`d_vars +
+    var_list`), the enumerated rows IN ORDER, `is_satisfied` per row, `is_feasible`, energies -/
+def showExact (m : Cqm) (atol rtol : Rat) : String :=
+  match Feas.exactSolve m atol rtol (fun _ _ => true), Feas.exactSolve m atol rtol (fun _ _ => false) with
+  | .noFields, _ => "X nofields"
+  | .raises, _ => "X raise:value"
+  | .result cases res lbl, .result _ res2 _ =>
+    let n := cases.length
+    let cols := String.intercalate "," ((Feas.exactColumns m).map fun g => showLabel (m.labels.getD g (.int (-1))))
+    let rows := String.intercalate ";" (cases.map fun row => String.intercalate "," (row.map fun (a : Int) => toString a))
+    let sh (res : Feas.VResult) :=
+      let sat := (List.range n).map fun r => String.join (res.isSatisfied.map fun col => bit (col r))
+      let fe := String.join ((List.range n).map fun r => bit (res.isFeasible r))
+      let en := String.intercalate "," ((List.range n).map fun r => showRat (res.energies r))
+      s!"{String.intercalate "," sat}|{fe}|{en}"
+    if sh res = sh res2 then s!"X {cols}|{rows}|{sh res}|{bit lbl}" else "X garbage-dependent"
+  | _, _ => "X garbage-dependent"
+
+/-- `feas0 <lenArg>`: `from_samples_cqm` given an argument of length `lenArg` that holds no rows -/
+def showFeas0 (m : Cqm) (lenArg : Nat) : String :=
+  let rows : Nat → Nat → Rat := fun _ _ => 0
+  let res := Feas.fromSamplesCqmTop lenArg 0 0 0 (fun _ _ => true) (Feas.evalObj m rows) (Feas.evalCons m rows)
+  s!"Z {res.1.isSatisfied.length} {bit res.2}"
+
 def stepAll (m : Cqm) (line : String) : Cqm × String :=
   match line.trimAscii.toString.splitOn " " with
+  | ["exact", atol, rtol] => match parseRat? atol, parseRat? rtol with
+    | some atol, some rtol => (m, showExact m atol rtol)
+    | _, _ => (m, "bad-op")
+  | ["feasw", labels, row] =>
+    -- energies of the objective and of every lhs for ONE row of a labelled sample array (any column order, superfluous columns)
+    match (if labels = "-" then some [] else (csv labels).mapM parseLabel?), (if row = "-" then some [] else (csv row).mapM parseRat?) with
+    | some ls, some rw =>
+      let en (e : Expr) := showRat (Feas.exprEnergyOfSample m.labels ls rw e)
+      let miss := (m.obj :: m.cons.map (·.e)).any (Feas.gatherMissing m.labels ls)
+      (m, s!"W {en m.obj}|{String.intercalate "," (m.cons.map fun c => en c.e)}|{bit miss}")
+    | _, _ => (m, "bad-op")
+  | ["feasg", k] => match k.toNat? with
+    | some k =>
+      let cs := Feas.evalCons m (fun _ _ => 0)
+      let a := (Feas.iterConstraintDataG k none cs 0).2
+      let b := (Feas.iterViolationsG k false false none cs 0).2
+      let c := (Feas.checkFeasibleG k 0 0 cs 0).isNone
+      (m, s!"G {bit a}{bit b}{bit c}")
+    | none => (m, "bad-op")
+  | ["feas0", k] => match k.toNat? with
+    | some k => (m, showFeas0 m k)
+    | none => (m, "bad-op")
   | ["feas", atol, rtol, rows] => match parseRat? atol, parseRat? rtol, parseRows? rows with
     | some atol, some rtol, some rows => (m, showFeas m atol rtol rows)
     | _, _, _ => (m, "bad-op")
